@@ -466,6 +466,35 @@ def check_filter_offsets(ctx):
     adv = [key(e["rhs"]) for b, i, e in wr.events("asg") if key(e["lhs"]) == "tb->offset" and e["op"] == "+="]
     ctx.check(len(adv) == 1 and "5" in adv[0] and "size" in adv[0], "T6-filter-offset", "offset-includes-trailer", wr.name, wr.loc,
               "the running offset advances by the block size plus the 5-byte trailer", "tb->offset advances by %s" % adv)
+    # every key that enters a data block enters the filter of that block (a filter that lacks a present key makes
+    # point lookups - in particular snapshot lookups of an older version - miss it)
+    ad = ctx.fn("ldb_tablegen_add", TB)
+    from ..rules import check_automaton, BAD
+
+    def step(q, e, st, b, i):
+        if q == BAD:
+            return q
+        if is_call(e, "ldb_filtergen_add_key") and argkey(e, 1) == "key":
+            return 1
+        if is_call(e, "ldb_blockgen_add") and argkey(e, 0) == "&tb->data_block" and q == 0:
+            return BAD
+        return q
+
+    def edge(q, lit):
+        if q == 0 and lit is not None and lit[0] not in ("case", "default") and \
+                (rel_edge(lit[0], lit[1], "==", "tb->filter_block", 0) or truth_of(lit[0], lit[1], "tb->filter_block") is False):
+            return 1
+        return q
+    check_automaton(ctx, "T1-filter-every-key", "tablegen_add", ad, 0, step, edge,
+                    "with a filter policy every key added to a data block was added to the filter first")
+    bm = ctx.fn("bloom_match", "src/util/bloom.c")
+    kd = [key(e["rhs"]) for b, i, e in bm.events("asg") if key(e["lhs"]) == "k"] + \
+         [key(e["init"]) for b, i, e in bm.events("decl") if e["n"] == "k" and "init" in e]
+    loops = [key(blk.term["cond"]) for blk in bm.blocks.values() if blk.term is not None and blk.term.get("k") in ("ForStmt", "WhileStmt", "DoStmt")
+             and "cond" in blk.term]
+    ctx.check(kd == ["data[(len - 1)]"] and loops and all(c in ("(i < k)", "(k > i)") for c in loops), "T6-bloom-probes", "stored-k", bm.name, bm.loc,
+              "a filter is probed as often as the count stored in it says (filters outlive the policy setting they were built with)",
+              "probe count: k = %s, loop conditions %s" % (kd, loops))
     tg = ctx.fn("ldb_table_internal_get", "src/table/table.c")
     fm = [(b, i, e) for (b, i, e) in tg.events("call") if is_call(e, "ldb_filter_matches")]
     ctx.check(len(fm) == 1 and argkey(fm[0][2], 1) == "handle.offset", "T6-filter-offset", "reader:block-offset", tg.name, tg.loc,
